@@ -1,12 +1,552 @@
-//! C19 — stub (not built yet).
+//! C19 — finite-difference derivatives are exact on low-degree polynomials and obey the classical
+//! remainder bounds.
+//!
+//! Oracles (all independent of the code under test):
+//!  * Taylor expansion of the two stencils:
+//!      D1 f(x) = f'(x)  - h^4 f^(5)(x)/30 - h^6 f^(7)(x)/252 - ...
+//!      D2 f(x) = f''(x) + h^2 f^(4)(x)/12 + h^4 f^(6)(x)/360 + ...
+//!    so for polynomials of degree <= 6 (first) / <= 5 (second) the returned value is known
+//!    *exactly*: the derivative itself up to degree 4 / 3, the derivative plus the leading error
+//!    term for the two degrees above. This pins every stencil weight and the divisor.
+//!  * Linearity: D(a f + b g) = a D f + b D g up to rounding, for arbitrary f, g.
+//!  * Classical remainder: |D1 f - f'| <= h^4 max|f^(5)|/30, |D2 f - f''| <= h^2 max|f^(4)|/12 over the
+//!    stencil, for sums of sines and (complex) exponentials whose derivatives are known in closed form.
+//! Every bound is `K * eps * (magnitude of the sampled function values) / h^m` wide: the sampled
+//! values carry evaluation error, which the difference quotient amplifies by 1/h (1/h^2).
+
+use crate::json::J;
+use crate::probe::{self, Guarded};
 use crate::report::*;
+use crate::rng::{CaseHash, Rng};
+use bacon_sci::differentiate::{derivative, second_derivative};
+use num_complex::Complex;
+
+type C = Complex<f64>;
+const EPS: f64 = f64::EPSILON;
+
+// ---- frozen constants (observed maxima are written to the evidence as `*/ratio` = error/(eps*scale)) ----
+/// polynomial oracle, first derivative: |D1 p - exact| <= K_P1 * eps * ptilde(|x|+2h)/h.
+/// Analysis: the four samples enter with weights (1+8+8+1)/12 = 1.5; a Horner evaluation of degree n
+/// errs by at most ~2n eps ptilde (real; ~3.3n complex), the rounded abscissae x+-h, x+-2h add n eps
+/// ptilde each: worst case ~45 eps ptilde/h for complex degree 6. Observed maximum 4.3 (seeds 1..8, both tiers; 1.3e8 thorough evaluations).
+const K_P1: f64 = 64.0;
+/// second derivative: weights (1+2+1) = 4: worst case ~90 eps ptilde/h^2. Observed maximum 6.7.
+const K_P2: f64 = 128.0;
+/// linearity: both sides are built from the same sampled values; observed maximum 3.3 / 7.1.
+const K_LIN1: f64 = 32.0;
+const K_LIN2: f64 = 64.0;
+/// rounding part of the remainder oracle, in units of eps * F / h^m where F bounds
+/// |f| * (1 + |argument of sin/exp|) over the stencil (libm is accurate to ~1 ulp, the argument
+/// w t + phi is itself rounded). Observed maximum 0.89 / 1.5.
+const K_S1: f64 = 16.0;
+const K_S2: f64 = 32.0;
 
 pub fn meta() -> CheckMeta {
-    CheckMeta { id: "C19", level: "exploration", rule: "stub".into(), assumptions: vec![], exhaustive: false, stuck_is_violation: false }
+    CheckMeta {
+        id: "C19",
+        level: "exploration",
+        rule: "cases: (a) anchors — monomials x^d, d = 0..6, on a fixed grid of 8 points x 5 steps, both formulas, real and complex; (b) random real/complex polynomials of degree 0..6 (first) / 0..5 (second), |c_k| in 10^[-2,2] with zeros, x in [-3,3], h in 10^[-3,-0.3]: returned value against the exact derivative (degree <= 4 / <= 3) or derivative + leading error term (above); (c) linearity on pairs of random functions; (d) remainder bound on sums of sines / exponentials (complex: e^{(k+iw)x}). Non-trivial: polynomial cases of degree 4,5,6 (first) / 3,4,5 (second), and every case involving a transcendental function; distinct = distinct hash of (formula, field, function parameters, x, h)".into(),
+        assumptions: vec![
+            "well-scaled range: |x| <= 3, 1e-3 <= h <= 0.5, coefficient magnitudes 1e-2..1e2; rounding allowance K*eps*ptilde(|x|+2h)/h^m with ptilde = sum |c_k| r^k (the sampled polynomial's own evaluation error is part of it)".into(),
+            "sin/exp of the platform libm are accurate to a few ulp".into(),
+        ],
+        exhaustive: false,
+        stuck_is_violation: false,
+    }
 }
-pub fn stages(_ctx: &Ctx) -> Vec<Stage> {
-    vec![]
+
+// ------------------------------------------------------------------ polynomials
+
+#[derive(Clone, Debug)]
+struct Poly {
+    c: Vec<C>,
+    complex: bool,
 }
-pub fn thresholds(_ctx: &Ctx, _rep: &Report) -> Vec<Threshold> {
-    vec![Threshold { what: "check not built".into(), required: 1.0, observed: 0.0 }]
+
+impl Poly {
+    fn deg(&self) -> usize {
+        self.c.len() - 1
+    }
+    fn eval_c(&self, x: f64) -> C {
+        let mut acc = C::new(0.0, 0.0);
+        for ck in self.c.iter().rev() {
+            acc = acc * x + *ck;
+        }
+        acc
+    }
+    fn eval_r(&self, x: f64) -> f64 {
+        let mut acc = 0.0;
+        for ck in self.c.iter().rev() {
+            acc = acc * x + ck.re;
+        }
+        acc
+    }
+    /// m-th derivative at x
+    fn deriv(&self, m: usize, x: f64) -> C {
+        let mut acc = C::new(0.0, 0.0);
+        for j in (m..self.c.len()).rev() {
+            let mut fall = 1.0;
+            for t in 0..m {
+                fall *= (j - t) as f64;
+            }
+            acc = acc * x + self.c[j] * fall;
+        }
+        acc
+    }
+    fn tilde(&self, r: f64) -> f64 {
+        let mut acc = 0.0;
+        for ck in self.c.iter().rev() {
+            acc = acc * r + ck.norm();
+        }
+        acc
+    }
+    fn gen(rng: &mut Rng, deg: usize, complex: bool) -> Poly {
+        let mut c = vec![];
+        for k in 0..=deg {
+            let zero = k != deg && rng.chance(0.2);
+            let mag = if zero { 0.0 } else { rng.log10(-2.0, 2.0) };
+            if complex {
+                let th = rng.r(0.0, 2.0 * std::f64::consts::PI);
+                c.push(C::new(mag * th.cos(), mag * th.sin()));
+            } else {
+                c.push(C::new(mag * rng.sign(), 0.0));
+            }
+        }
+        Poly { c, complex }
+    }
+    fn to_json(&self) -> J {
+        if self.complex {
+            J::obj().set("coefficients_re_low_to_high", J::fs(&self.c.iter().map(|z| z.re).collect::<Vec<_>>())).set("coefficients_im_low_to_high", J::fs(&self.c.iter().map(|z| z.im).collect::<Vec<_>>()))
+        } else {
+            J::obj().set("coefficients_low_to_high", J::fs(&self.c.iter().map(|z| z.re).collect::<Vec<_>>()))
+        }
+    }
+}
+
+fn cj(z: C) -> J {
+    J::fs(&[z.re, z.im])
+}
+
+#[derive(Clone, Copy, PartialEq)]
+enum Formula {
+    First,
+    Second,
+}
+impl Formula {
+    fn name(self) -> &'static str {
+        match self {
+            Formula::First => "derivative",
+            Formula::Second => "second_derivative",
+        }
+    }
+    fn order(self) -> usize {
+        match self {
+            Formula::First => 1,
+            Formula::Second => 2,
+        }
+    }
+    /// degree up to which the formula is exact
+    fn exact_deg(self) -> usize {
+        match self {
+            Formula::First => 4,
+            Formula::Second => 3,
+        }
+    }
+}
+
+/// run the library formula on a function given as complex closure; `complex == false` calls the
+/// real instantiation with the real part
+fn run_formula(which: Formula, complex: bool, f: &dyn Fn(f64) -> C, x: f64, h: f64) -> Guarded<C> {
+    probe::guard(|| match (which, complex) {
+        (Formula::First, true) => derivative(|t: f64| f(t), x, h),
+        (Formula::Second, true) => second_derivative(|t: f64| f(t), x, h),
+        (Formula::First, false) => C::new(derivative(|t: f64| f(t).re, x, h), 0.0),
+        (Formula::Second, false) => C::new(second_derivative(|t: f64| f(t).re, x, h), 0.0),
+    })
+}
+
+fn poly_case(rep: &mut Report, which: Formula, p: &Poly, x: f64, h: f64, stage: &str) {
+    let complex = p.complex;
+    let field = if complex { "complex" } else { "real" };
+    let key = format!("{}/{}", which.name(), field);
+    let f = |t: f64| if complex { p.eval_c(t) } else { C::new(p.eval_r(t), 0.0) };
+    let got = run_formula(which, complex, &f, x, h);
+    rep.eval();
+    let deg = p.deg();
+    rep.count(&format!("{}/poly_deg{}", key, deg), 1);
+    let m = which.order();
+    // exact value of the formula on this polynomial (Taylor expansion, terminates)
+    let deriv = p.deriv(m, x);
+    let lead = match which {
+        Formula::First => -p.deriv(5, x) * (h.powi(4) / 30.0),
+        Formula::Second => p.deriv(4, x) * (h * h / 12.0),
+    };
+    let exact = deriv + lead;
+    let scale = EPS * p.tilde(x.abs() + 2.0 * h) / h.powi(m as i32);
+    let kk = if m == 1 { K_P1 } else { K_P2 };
+    let case = |got: Option<C>| {
+        let mut j = J::obj().set("function", which.name()).set("field", field).set("polynomial", p.to_json()).set("degree", deg).set("x", x).set("h", h).set("exact_derivative", cj(deriv)).set("predicted_leading_error_term", cj(lead)).set("rounding_allowance", kk * scale);
+        if let Some(g) = got {
+            j.put("returned", cj(g));
+        }
+        j
+    };
+    let got = match got {
+        Guarded::Ok(v) => v,
+        Guarded::Panic(msg, loc) => {
+            rep.violation(&format!("{}/panic", which.name()), case(None), format!("{} panicked: '{}' at {}", which.name(), msg, loc));
+            return;
+        }
+        Guarded::Budget => return,
+    };
+    let err = (got - exact).norm();
+    let ratio = err / scale;
+    let above = deg > which.exact_deg();
+    rep.max(&format!("{}/{}_ratio", key, if above { "leading_term" } else { "exactness" }), ratio);
+    if !(err <= kk * scale) {
+        let sig = if above { format!("{}/leading-error-term", which.name()) } else { format!("{}/not-exact-on-degree-{}", which.name(), deg) };
+        rep.violation(
+            &sig,
+            case(Some(got)),
+            format!("{} of a degree-{} {} polynomial at x={:e}, h={:e}: returned {:?}, exact value of the formula {:?} (derivative {:?} + leading term {:?}); difference {:e} = {:.1} x eps*ptilde/h^{} (allowed {})", which.name(), deg, field, x, h, got, exact, deriv, lead, err, ratio, m, kk),
+        );
+    }
+    if above {
+        // how strongly the predicted leading term stands out of the rounding allowance
+        let signal = lead.norm() / (kk * scale);
+        if signal > 100.0 {
+            rep.count(&format!("{}/leading_term_resolved_100x", key), 1);
+        }
+    } else if deg == which.exact_deg() {
+        // the top coefficient's contribution to the derivative, against the allowance: a formula that is
+        // exact only to a lower degree would miss by this much
+        rep.count(&format!("{}/at_exactness_degree", key), 1);
+    }
+    if deg >= which.exact_deg() {
+        let mut hsh = CaseHash::new("c19-poly").s(stage).u(m as u64).u(complex as u64).f(x).f(h);
+        for z in &p.c {
+            hsh = hsh.f(z.re).f(z.im);
+        }
+        rep.nontrivial(hsh.0);
+        if rep.wants_sample() {
+            rep.sample(case(Some(got)).set("error_over_eps_ptilde_over_h^m", ratio));
+        }
+    }
+}
+
+// ------------------------------------------------------------------ transcendental family
+
+#[derive(Clone, Debug)]
+enum Term {
+    /// a sin(w t + p)
+    Sin { a: C, w: f64, p: f64 },
+    /// a exp((k + i w) t)   (w = 0 for the real family)
+    Exp { a: C, k: f64, w: f64 },
+}
+
+#[derive(Clone, Debug)]
+struct Smooth {
+    terms: Vec<Term>,
+    complex: bool,
+}
+
+impl Smooth {
+    fn gen(rng: &mut Rng, complex: bool) -> Smooth {
+        let n = 1 + rng.below(3);
+        let mut terms = vec![];
+        for _ in 0..n {
+            let mag = rng.log10(-1.0, 1.0);
+            let a = if complex {
+                let th = rng.r(0.0, 2.0 * std::f64::consts::PI);
+                C::new(mag * th.cos(), mag * th.sin())
+            } else {
+                C::new(mag * rng.sign(), 0.0)
+            };
+            if rng.bool() {
+                terms.push(Term::Sin { a, w: rng.log10(-0.7, 0.9), p: rng.r(-3.0, 3.0) });
+            } else {
+                let k = rng.r(-2.0, 2.0);
+                let w = if complex { rng.r(-6.0, 6.0) } else { 0.0 };
+                terms.push(Term::Exp { a, k, w });
+            }
+        }
+        Smooth { terms, complex }
+    }
+    fn eval(&self, t: f64) -> C {
+        let mut s = C::new(0.0, 0.0);
+        for term in &self.terms {
+            s += match term {
+                Term::Sin { a, w, p } => *a * (w * t + p).sin(),
+                Term::Exp { a, k, w } => {
+                    if *w == 0.0 {
+                        *a * (k * t).exp()
+                    } else {
+                        *a * (k * t).exp() * C::new((w * t).cos(), (w * t).sin())
+                    }
+                }
+            };
+        }
+        if self.complex {
+            s
+        } else {
+            C::new(s.re, 0.0)
+        }
+    }
+    /// m-th derivative at t (closed form)
+    fn deriv(&self, m: usize, t: f64) -> C {
+        let mut s = C::new(0.0, 0.0);
+        for term in &self.terms {
+            s += match term {
+                Term::Sin { a, w, p } => *a * (w.powi(m as i32) * (w * t + p + m as f64 * std::f64::consts::FRAC_PI_2).sin()),
+                Term::Exp { a, k, w } => {
+                    let kappa = C::new(*k, *w);
+                    *a * kappa.powu(m as u32) * (k * t).exp() * C::new((w * t).cos(), (w * t).sin())
+                }
+            };
+        }
+        s
+    }
+    /// bound of |f^(m)| over [lo, hi]
+    fn bound(&self, m: usize, lo: f64, hi: f64) -> f64 {
+        let mut s = 0.0;
+        for term in &self.terms {
+            s += match term {
+                Term::Sin { a, w, .. } => a.norm() * w.powi(m as i32),
+                Term::Exp { a, k, w } => a.norm() * (k * k + w * w).sqrt().powi(m as i32) * (k * lo).exp().max((k * hi).exp()),
+            };
+        }
+        s
+    }
+    /// magnitude of the sampled values including the conditioning of the sin/exp arguments
+    fn rounding_scale(&self, lo: f64, hi: f64) -> f64 {
+        let tm = lo.abs().max(hi.abs());
+        let mut s = 0.0;
+        for term in &self.terms {
+            s += match term {
+                Term::Sin { a, w, p } => a.norm() * (2.0 + w * tm + p.abs()),
+                Term::Exp { a, k, w } => a.norm() * (k * lo).exp().max((k * hi).exp()) * (2.0 + (k.abs() + w.abs()) * tm),
+            };
+        }
+        s
+    }
+    fn to_json(&self) -> J {
+        J::Arr(
+            self.terms
+                .iter()
+                .map(|t| match t {
+                    Term::Sin { a, w, p } => J::obj().set("kind", "a*sin(w*t+p)").set("a", cj(*a)).set("w", *w).set("p", *p),
+                    Term::Exp { a, k, w } => J::obj().set("kind", "a*exp((k+i*w)*t)").set("a", cj(*a)).set("k", *k).set("w", *w),
+                })
+                .collect(),
+        )
+    }
+    fn hash(&self, mut h: CaseHash) -> CaseHash {
+        for t in &self.terms {
+            h = match t {
+                Term::Sin { a, w, p } => h.u(1).f(a.re).f(a.im).f(*w).f(*p),
+                Term::Exp { a, k, w } => h.u(2).f(a.re).f(a.im).f(*k).f(*w),
+            };
+        }
+        h
+    }
+}
+
+fn smooth_case(rep: &mut Report, which: Formula, f: &Smooth, x: f64, h: f64) {
+    let complex = f.complex;
+    let field = if complex { "complex" } else { "real" };
+    let key = format!("{}/{}", which.name(), field);
+    let fun = |t: f64| f.eval(t);
+    let got = run_formula(which, complex, &fun, x, h);
+    rep.eval();
+    rep.count(&format!("{}/smooth_cases", key), 1);
+    let m = which.order();
+    let (lo, hi) = if m == 1 { (x - 2.0 * h, x + 2.0 * h) } else { (x - h, x + h) };
+    let truth = f.deriv(m, x);
+    let truth = if complex { truth } else { C::new(truth.re, 0.0) };
+    let (trunc, ks) = match which {
+        Formula::First => (h.powi(4) * f.bound(5, lo, hi) / 30.0, K_S1),
+        Formula::Second => (h * h * f.bound(4, lo, hi) / 12.0, K_S2),
+    };
+    let round_unit = EPS * f.rounding_scale(lo, hi) / h.powi(m as i32);
+    let case = |got: Option<C>| {
+        let mut j = J::obj().set("function", which.name()).set("field", field).set("terms", f.to_json()).set("x", x).set("h", h).set("true_derivative", cj(truth)).set("remainder_bound", trunc).set("rounding_allowance", ks * round_unit);
+        if let Some(g) = got {
+            j.put("returned", cj(g));
+        }
+        j
+    };
+    let got = match got {
+        Guarded::Ok(v) => v,
+        Guarded::Panic(msg, loc) => {
+            rep.violation(&format!("{}/panic", which.name()), case(None), format!("{} panicked: '{}' at {}", which.name(), msg, loc));
+            return;
+        }
+        Guarded::Budget => return,
+    };
+    let err = (got - truth).norm();
+    // the monitored quantity: how much of the rounding allowance is needed on top of the remainder bound
+    let excess = (err - trunc) / round_unit;
+    rep.max(&format!("{}/remainder_excess_ratio", key), excess);
+    if trunc > 1e3 * ks * round_unit {
+        // truncation-dominated cases show how sharp the classical bound is (<= 1 by the theorem)
+        rep.max(&format!("{}/error_over_remainder_bound", key), err / trunc);
+        rep.count(&format!("{}/truncation_dominated", key), 1);
+    }
+    if !(err <= trunc + ks * round_unit) {
+        rep.violation(
+            &format!("{}/remainder-bound", which.name()),
+            case(Some(got)),
+            format!("{} ({}) at x={:e}, h={:e}: |returned - true| = {:e} exceeds the classical remainder bound {:e} + rounding {:e}", which.name(), field, x, h, err, trunc, ks * round_unit),
+        );
+    }
+    rep.nontrivial(f.hash(CaseHash::new("c19-smooth").u(m as u64).u(complex as u64).f(x).f(h)).0);
+    if rep.wants_sample() {
+        rep.sample(case(Some(got)).set("error", err));
+    }
+}
+
+/// f = a*u + b*v must give a*D(u) + b*D(v)
+fn linearity_case(rep: &mut Report, which: Formula, rng: &mut Rng, complex: bool, x: f64, h: f64) {
+    let field = if complex { "complex" } else { "real" };
+    let key = format!("{}/{}", which.name(), field);
+    let u = Smooth::gen(rng, complex);
+    let deg = rng.below(9);
+    let v = Poly::gen(rng, deg, complex);
+    let coef = |rng: &mut Rng| {
+        let mag = rng.log10(-1.0, 1.0);
+        if complex {
+            let th = rng.r(0.0, 6.283185307179586);
+            C::new(mag * th.cos(), mag * th.sin())
+        } else {
+            C::new(mag * rng.sign(), 0.0)
+        }
+    };
+    let a = coef(rng);
+    let b = coef(rng);
+    let fu = |t: f64| u.eval(t);
+    let fv = |t: f64| if complex { v.eval_c(t) } else { C::new(v.eval_r(t), 0.0) };
+    let fw = |t: f64| a * fu(t) + b * fv(t);
+    let du = run_formula(which, complex, &fu, x, h);
+    let dv = run_formula(which, complex, &fv, x, h);
+    let dw = run_formula(which, complex, &fw, x, h);
+    rep.evals(3);
+    rep.count(&format!("{}/linearity_cases", key), 1);
+    let m = which.order();
+    let case = || J::obj().set("function", which.name()).set("field", field).set("u_terms", u.to_json()).set("v_polynomial", v.to_json()).set("a", cj(a)).set("b", cj(b)).set("x", x).set("h", h).set("claim", "D(a*u + b*v) = a*D(u) + b*D(v)");
+    let (du, dv, dw) = match (du, dv, dw) {
+        (Guarded::Ok(p), Guarded::Ok(q), Guarded::Ok(r)) => (p, q, r),
+        _ => {
+            rep.violation(&format!("{}/panic", which.name()), case(), format!("{} panicked on a smooth function", which.name()));
+            return;
+        }
+    };
+    // magnitude of the sampled values on the stencil
+    let pts: Vec<f64> = if m == 1 { vec![x - 2.0 * h, x - h, x + h, x + 2.0 * h] } else { vec![x - h, x, x + h] };
+    let s = pts.iter().map(|t| a.norm() * fu(*t).norm() + b.norm() * fv(*t).norm()).fold(0.0, f64::max);
+    let unit = EPS * s / h.powi(m as i32);
+    let kk = if m == 1 { K_LIN1 } else { K_LIN2 };
+    let err = (dw - (a * du + b * dv)).norm();
+    rep.max(&format!("{}/linearity_ratio", key), err / unit);
+    if !(err <= kk * unit) {
+        rep.violation(
+            &format!("{}/linearity", which.name()),
+            case().set("D_u", cj(du)).set("D_v", cj(dv)).set("D_combination", cj(dw)),
+            format!("{} ({}): D(a u + b v) = {:?} but a D(u) + b D(v) = {:?}; difference {:e} = {:.1} x eps*max|values|/h^{} (allowed {})", which.name(), field, dw, a * du + b * dv, err, err / unit, m, kk),
+        );
+    }
+    let mut hh = u.hash(CaseHash::new("c19-lin").u(m as u64).u(complex as u64).f(x).f(h)).f(a.re).f(a.im).f(b.re).f(b.im);
+    for z in &v.c {
+        hh = hh.f(z.re).f(z.im);
+    }
+    rep.nontrivial(hh.0);
+}
+
+fn gen_xh(rng: &mut Rng) -> (f64, f64) {
+    let x = match rng.below(10) {
+        0 => 0.0,
+        1 => *rng.pick(&[-3.0, -1.0, 1.0, 3.0, 0.5, -0.25]),
+        _ => rng.r(-3.0, 3.0),
+    };
+    let h = if rng.chance(0.15) { *rng.pick(&[1e-3, 0.01, 0.1, 0.125, 0.25, 0.5]) } else { rng.log10(-3.0, -0.30103) };
+    (x, h)
+}
+
+const ANCHOR_X: [f64; 8] = [-3.0, -1.0, -0.5, 0.0, 0.25, 1.0, 2.0, 3.0];
+const ANCHOR_H: [f64; 5] = [1e-3, 1e-2, 0.1, 0.25, 0.5];
+
+pub fn stages(ctx: &Ctx) -> Vec<Stage> {
+    let seed = ctx.seed;
+    let tier = ctx.tier;
+    let mut st = vec![];
+    // anchors: monomials, seed independent: 7 degrees x 8 points x 5 steps x 2 formulas x 2 fields
+    st.push(Stage::new("anchors", 7 * 8 * 5 * 2 * 2, move |i, rep| {
+        let d = (i % 7) as usize;
+        let xi = ((i / 7) % 8) as usize;
+        let hi = ((i / 56) % 5) as usize;
+        let which = if (i / 280) % 2 == 0 { Formula::First } else { Formula::Second };
+        let complex = (i / 560) % 2 == 1;
+        let mut c = vec![C::new(0.0, 0.0); d + 1];
+        // i^d as coefficient in the complex runs: real, imaginary, negative, ... leading coefficients
+        c[d] = if complex { C::new(0.0, 1.0).powu(d as u32) } else { C::new(1.0, 0.0) };
+        let p = Poly { c, complex };
+        if which == Formula::Second && d > 5 {
+            // degree 6 has a second, h^4 f^(6)/360, term: outside the two-term oracle
+            rep.count("anchors_skipped_degree6_second", 1);
+            return;
+        }
+        poly_case(rep, which, &p, ANCHOR_X[xi], ANCHOR_H[hi], "anchors");
+    }));
+    let n_poly = tier.pick(16_000u64, 4_000_000u64);
+    for (name, which) in [("poly-first", Formula::First), ("poly-second", Formula::Second)] {
+        st.push(Stage::new(name, n_poly, move |i, rep| {
+            let mut rng = Rng::for_case(seed, name, i);
+            let complex = i % 2 == 1;
+            let maxdeg = which.exact_deg() + 2;
+            // degrees at and just above the exactness degree get half of the cases
+            let deg = if rng.bool() { which.exact_deg() + rng.below(3) } else { rng.below(maxdeg + 1) };
+            let p = Poly::gen(&mut rng, deg, complex);
+            let (x, h) = gen_xh(&mut rng);
+            poly_case(rep, which, &p, x, h, name);
+        }));
+    }
+    let n_lin = tier.pick(8_000u64, 2_000_000u64);
+    st.push(Stage::new("linearity", n_lin, move |i, rep| {
+        let mut rng = Rng::for_case(seed, "c19-linearity", i);
+        let which = if i % 2 == 0 { Formula::First } else { Formula::Second };
+        let complex = (i / 2) % 2 == 1;
+        let (x, h) = gen_xh(&mut rng);
+        linearity_case(rep, which, &mut rng, complex, x, h);
+    }));
+    let n_smooth = tier.pick(10_000u64, 2_500_000u64);
+    st.push(Stage::new("smooth", n_smooth, move |i, rep| {
+        let mut rng = Rng::for_case(seed, "c19-smooth", i);
+        let which = if i % 2 == 0 { Formula::First } else { Formula::Second };
+        let complex = (i / 2) % 2 == 1;
+        let f = Smooth::gen(&mut rng, complex);
+        let (x, h) = gen_xh(&mut rng);
+        smooth_case(rep, which, &f, x, h);
+    }));
+    st
+}
+
+pub fn thresholds(ctx: &Ctx, rep: &Report) -> Vec<Threshold> {
+    let mut t = vec![];
+    let big = ctx.tier.pick(1.0, 200.0);
+    for which in [Formula::First, Formula::Second] {
+        for field in ["real", "complex"] {
+            let key = format!("{}/{}", which.name(), field);
+            for d in 0..=(which.exact_deg() + 2) {
+                t.push(Threshold { what: format!("{} polynomial cases of degree {}", key, d), required: 300.0 * big, observed: rep.counter(&format!("{}/poly_deg{}", key, d)) as f64 });
+            }
+            t.push(Threshold {
+                what: format!("{}: cases above the exactness degree whose predicted leading error term exceeds 100 x the rounding allowance (the term is resolved, not hidden in the allowance)", key),
+                required: 500.0 * big,
+                observed: rep.counter(&format!("{}/leading_term_resolved_100x", key)) as f64,
+            });
+            t.push(Threshold { what: format!("{} linearity cases", key), required: 1_500.0 * big, observed: rep.counter(&format!("{}/linearity_cases", key)) as f64 });
+            t.push(Threshold { what: format!("{} remainder-bound cases", key), required: 2_000.0 * big, observed: rep.counter(&format!("{}/smooth_cases", key)) as f64 });
+            t.push(Threshold { what: format!("{} remainder-bound cases dominated by truncation (bound > 1000 x rounding allowance)", key), required: 500.0 * big, observed: rep.counter(&format!("{}/truncation_dominated", key)) as f64 });
+        }
+    }
+    t
 }
